@@ -9,52 +9,73 @@ fn any_status() -> RepliconClientStatus {
     }
 }
 
-// HARNESS: c09_client_status_change_clears
+// HARNESS: c09_client_leave_connected
 // PROPS: C09 C13
 // TIER: quick
 // TIMEOUT: 300
-// DRIVES: RepliconClient::set_status, RepliconClient::send, RepliconClient::insert_received, RepliconClient::receive, RepliconClient::drain_sent, RepliconClient::setup_server_channels
-// BOUNDS: 2 receive channels; 0..=2 received and 0..=2 sent messages (1 byte each); every status transition; unwind 4
+// DRIVES: RepliconClient::set_status, RepliconClient::send, RepliconClient::insert_received, RepliconClient::setup_server_channels, RepliconClient::is_connected
+// BOUNDS: 2 receive channels; connected client with 2 received and 2 sent messages; every next status; unwind 4
 #[kani::proof]
 #[kani::unwind(4)]
-fn c09_client_status_change_clears() {
+#[kani::stub(<bytes::Bytes as core::ops::Drop>::drop, noop_bytes_drop)]
+fn c09_client_leave_connected() {
     let mut client = RepliconClient::default();
     client.setup_server_channels(2);
-    let initial = any_status();
-    client.set_status(initial);
-
-    let n_recv: usize = kani::any();
-    let n_sent: usize = kani::any();
-    kani::assume(n_recv <= 2 && n_sent <= 2);
-    for i in 0..n_recv {
-        let ch: u8 = kani::any();
-        kani::assume(ch < 2);
-        client.insert_received(ch, Bytes::from_static(&[7]));
-    }
-    for _ in 0..n_sent {
-        client.send(0usize, Bytes::from_static(&[9]));
-    }
-    let queued_recv = client.received_count(0usize) + client.received_count(1usize);
-    let queued_sent = client.sent_messages.len();
-    // Nothing is accepted in either direction while there is no connection.
-    if initial != RepliconClientStatus::Connected {
-        assert!(queued_recv == 0 && queued_sent == 0);
-    } else {
-        assert!(queued_recv == n_recv && queued_sent == n_sent);
-    }
+    client.set_status(RepliconClientStatus::Connected);
+    client.insert_received(0u8, Bytes::from_static(&[7]));
+    client.insert_received(1u8, Bytes::from_static(&[8]));
+    client.send(0usize, Bytes::from_static(&[9]));
+    client.send(1usize, Bytes::from_static(&[10]));
+    assert!(client.received_messages[0].len() == 1 && client.received_messages[1].len() == 1);
+    assert!(client.sent_messages.len() == 2);
 
     let next = any_status();
     client.set_status(next);
     assert!(client.status() == next);
-    let left_recv = client.received_count(0usize) + client.received_count(1usize);
-    let left_sent = client.drain_sent().count();
-    if initial == RepliconClientStatus::Connected && next != RepliconClientStatus::Connected {
+    let left_recv = client.received_messages[0].len() + client.received_messages[1].len();
+    let left_sent = client.sent_messages.len();
+    if next != RepliconClientStatus::Connected {
         // Leaving the connected state drops everything received and everything not yet sent.
         assert!(left_recv == 0 && left_sent == 0);
-        kani::cover!(n_recv == 2 && n_sent == 2, "disconnect with full stores");
+        kani::cover!(next == RepliconClientStatus::Connecting, "connected -> connecting with full stores");
     } else {
-        assert!(left_recv == queued_recv && left_sent == queued_sent);
+        assert!(left_recv == 2 && left_sent == 2);
+        kani::cover!(true, "connected -> connected keeps the stores");
     }
-    kani::cover!(initial == RepliconClientStatus::Connecting && n_sent > 0, "send attempted while connecting");
     core::mem::forget(client);
 }
+
+// HARNESS: c09_client_not_connected_accepts_nothing
+// PROPS: C09 C13
+// TIER: quick
+// TIMEOUT: 300
+// DRIVES: RepliconClient::set_status, RepliconClient::send, RepliconClient::insert_received, RepliconClient::is_connected
+// BOUNDS: 2 receive channels; initial status symbolic in {Disconnected, Connecting}; one message offered per direction; every next status; unwind 4
+#[kani::proof]
+#[kani::unwind(4)]
+#[kani::stub(<bytes::Bytes as core::ops::Drop>::drop, noop_bytes_drop)]
+fn c09_client_not_connected_accepts_nothing() {
+    let mut client = RepliconClient::default();
+    client.setup_server_channels(2);
+    let initial = any_status();
+    kani::assume(initial != RepliconClientStatus::Connected);
+    client.set_status(initial);
+    // Nothing is accepted in either direction while there is no connection.
+    client.insert_received(1u8, Bytes::from_static(&[8]));
+    client.send(0usize, Bytes::from_static(&[9]));
+    assert!(client.received_messages[0].is_empty() && client.received_messages[1].is_empty());
+    assert!(client.sent_messages.is_empty());
+    let next = any_status();
+    client.set_status(next);
+    assert!(client.status() == next);
+    assert!(client.received_messages[0].is_empty() && client.received_messages[1].is_empty());
+    assert!(client.sent_messages.is_empty());
+    kani::cover!(initial == RepliconClientStatus::Connecting && next == RepliconClientStatus::Connected, "connecting -> connected");
+    kani::cover!(initial == RepliconClientStatus::Disconnected, "offered while disconnected");
+    core::mem::forget(client);
+}
+
+
+/// Environment fake: releasing a message buffer is a no-op (the `Bytes` vtable drop is an indirect
+/// call that costs CBMC ~40 s per call site and is irrelevant to the properties).
+fn noop_bytes_drop(_b: &mut Bytes) {}
